@@ -456,14 +456,21 @@ def oracle_ancillaries(ctx):
     from nanite import model
     from curves import synth
     idnt = synth(n_app=80, n_ret=40, with_tip=True)
+    # (NaN comes in many objects: the numpy constant, a Python float, numpy scalars of either width, a computed one)
+    with np.errstate(all="ignore"):
+        computed_nan = np.float64(np.inf) - np.float64(np.inf)
+    nans = [np.nan, float("nan"), np.float64("nan"), np.float32("nan"), computed_nan]
     cases = [{"E": 1234.0}, {"E": np.nan}, {"baseline": 0.0, "E": 77.0}, {"contact_point": 0.0},
-             {"contact_point": 5e-7, "unrelated": 3.0}, {"R": 2e-6, "nu": 0.25}, {}]
+             {"contact_point": 5e-7, "unrelated": 3.0}, {"R": 2e-6, "nu": 0.25}, {},
+             {"E": float("nan")}, {"E": np.float64("nan"), "R": np.float32("nan")},
+             {"contact_point": computed_nan, "E": np.float64(88.0)}]
     rng = ctx.rng
     for _ in range(6):
         c = {}
         for k in rng.sample(["E", "R", "nu", "contact_point", "baseline", "other"], rng.randint(1, 4)):
             # (values inside the parameter bounds; lmfit clips anything else)
-            c[k] = rng.choice([0.0, np.nan, 0.25, 0.5] if k == "nu" else [0.0, np.nan, 1.0, 5.0, 250.0])
+            c[k] = rng.choice([0.0, rng.choice(nans), 0.25, 0.5] if k == "nu" else
+                              [0.0, rng.choice(nans), 1.0, 5.0, 250.0])
         cases.append(c)
     lines, expect = [], []
     for n, anc in enumerate(cases):
